@@ -32,7 +32,7 @@ def showOptNat : Option Nat → String
   | none => "-1"
   | some n => toString n
 
-def report (s : St) (k : Nat) : List String := Id.run do
+def report (s : St) (k : Nat) (light : Bool := false) : List String := Id.run do
   let L : Lat := { nframes := s.nframes, nodes := s.nodes.toList, links := s.links.toList, start := s.start, final := s.final }
   let G : Nfa := { start := s.gstart, final := 0, arcs := s.arcs.toList }
   let mut out : List String := []
@@ -41,13 +41,13 @@ def report (s : St) (k : Nat) : List String := Id.run do
   out := out ++ ["clauses " ++ sepBy " " (cl.map fun (n, b) => s!"{n}={if b then 1 else 0}") ++ s!" ok={if ok then 1 else 0}"]
   -- first best
   if s.haveSegs then
-    match findSegPath L (L.n + 2) L.start s.segs.toList with
+    match findSegPath L (L.nframes + 3) L.start s.segs.toList with
     | none => out := out ++ ["firstbest none"]
     | some ls =>
       let c := checkFirstBest L s.segs.toList ls
       out := out ++ [s!"firstbest found checked={if c then 1 else 0} " ++ sepBy " " (ls.map fun l => toString (L.links.idxOf l))]
   else out := out ++ ["firstbest skipped"]
-  if ok then
+  if ok && !light then
     let tr := traverseEdges L
     out := out ++ ["traverse " ++ sepBy " " (tr.map fun l => toString (L.links.idxOf l))]
     match bestpath L with
@@ -139,6 +139,9 @@ def step (s : St) (ws : List String) : St × List String :=
     | none => ({ s with bad := true }, [])
   | ["run", k] =>
     if s.bad then ({}, ["bad-input", "end"]) else ({}, report s ((parseNat k).getD 0))
+  | ["runlight", k] =>
+    -- very large lattices: verified checker and first-best validation only
+    if s.bad then ({}, ["bad-input", "end"]) else ({}, report s ((parseNat k).getD 0) true)
   | _ => (s, [])
 
 partial def loop (h : IO.FS.Stream) (out : IO.FS.Stream) (s : St) : IO Unit := do
